@@ -112,6 +112,49 @@ def _expr(e, env):
     raise Untranslatable(ast.dump(e)[:100])
 
 
+def _str_expr(e, env):
+    """String-valued expressions: constants, f-strings over int names / nested string expressions,
+    `D.get(k, default)` for a generated table, `x.get('message', default)` on the error object."""
+    if isinstance(e, ast.Constant) and isinstance(e.value, str):
+        return _lean_str(e.value)
+    if isinstance(e, ast.JoinedStr):
+        parts = []
+        for v in e.values:
+            if isinstance(v, ast.Constant) and isinstance(v.value, str):
+                parts.append(_lean_str(v.value))
+            elif isinstance(v, ast.FormattedValue) and v.format_spec is None and v.conversion == -1:
+                if isinstance(v.value, ast.Name) and env.get("__ints__", {}).get(v.value.id):
+                    parts.append(f"(toString {env['__ints__'][v.value.id]})")
+                else:
+                    parts.append(_str_expr(v.value, env))
+            else:
+                raise Untranslatable("f-string piece")
+        return "(" + " ++ ".join(parts or ['""']) + ")"
+    if isinstance(e, ast.Call) and isinstance(e.func, ast.Attribute) and e.func.attr == "get" and len(e.args) == 2 and not e.keywords:
+        tgt = e.func.value
+        if isinstance(tgt, ast.Name) and tgt.id in env.get("__tables__", {}):
+            key = e.args[0]
+            if not (isinstance(key, ast.Name) and env.get("__ints__", {}).get(key.id)):
+                raise Untranslatable("table key")
+            return f"(({env['__tables__'][tgt.id]}.lookup {env['__ints__'][key.id]}).getD {_str_expr(e.args[1], env)})"
+        if isinstance(tgt, ast.Name) and tgt.id in env.get("__optstr__", {}) and isinstance(e.args[0], ast.Constant) \
+                and e.args[0].value == env["__optstr__"][tgt.id][0]:
+            return f"({env['__optstr__'][tgt.id][1]}.getD {_str_expr(e.args[1], env)})"
+        raise Untranslatable("get() on an unknown object")
+    if isinstance(e, ast.Call) and isinstance(e.func, ast.Name) and e.func.id in env.get("__strfuncs__", {}) \
+            and len(e.args) == 1 and not e.keywords and isinstance(e.args[0], ast.Name) and env.get("__ints__", {}).get(e.args[0].id):
+        return f"({env['__strfuncs__'][e.func.id]} {env['__ints__'][e.args[0].id]})"
+    raise Untranslatable("string expression " + ast.dump(e)[:80])
+
+
+def _str_block(stmts, env):
+    """a function body that is (docstring +) `return <string expr>`"""
+    stmts = [x for x in stmts if not _is_effect_free(x)]
+    if len(stmts) == 1 and isinstance(stmts[0], ast.Return) and stmts[0].value is not None:
+        return _str_expr(stmts[0].value, env)
+    raise Untranslatable("string function body")
+
+
 def _tuple_of(e, env):
     """components (Lean terms) of a tuple-valued expression, or None"""
     if isinstance(e, ast.Tuple):
@@ -262,6 +305,64 @@ def gen_errors(src: Path):
     except Untranslatable as ex:
         report["untranslatable"].append(f"errors.py: is_retryable_error: {ex}")
         body = "true"
+    # ---- auxiliary (supplementary) parts: message table, get_error_message, the three range / set
+    # helpers, and the exception text assembled in send_message._process_response.  They have their
+    # own flag: failing to translate them never touches `translatable`.
+    aux_bad = []
+    table = []
+    for n in tree.body:
+        if isinstance(n, ast.Assign) and len(n.targets) == 1 and isinstance(n.targets[0], ast.Name) \
+                and n.targets[0].id == "ERROR_MESSAGES" and isinstance(n.value, ast.Dict):
+            try:
+                for k, v in zip(n.value.keys, n.value.values):
+                    kk = consts[k.id] if isinstance(k, ast.Name) else int(ast.literal_eval(k))
+                    if not (isinstance(v, ast.Constant) and isinstance(v.value, str)):
+                        raise Untranslatable("non-literal message")
+                    table.append((kk, v.value))
+            except Exception as ex:  # noqa
+                aux_bad.append(f"ERROR_MESSAGES: {ex}")
+                table = []
+    aux = {}
+    for fname, lname in (("is_server_error", "isServerError"), ("is_standard_jsonrpc_error", "isStandardJsonrpcError"),
+                         ("is_mcp_specific_error", "isMcpSpecificError")):
+        try:
+            f = _find_func(tree, fname)
+            if len(f.args.args) != 1:
+                raise Untranslatable("signature")
+            e2 = dict(env)
+            e2[f.args.args[0].arg] = "code"
+            aux[lname] = _block(f.body, e2)
+        except Untranslatable as ex:
+            aux_bad.append(f"{fname}: {ex}")
+            aux[lname] = "false"
+    try:
+        f = _find_func(tree, "get_error_message")
+        if len(f.args.args) != 1:
+            raise Untranslatable("signature")
+        a = f.args.args[0].arg
+        gem = _str_block(f.body, {"__ints__": {a: "code"}, "__tables__": {"ERROR_MESSAGES": "messages"}})
+    except Untranslatable as ex:
+        aux_bad.append(f"get_error_message: {ex}")
+        gem = '""'
+    # _process_response: msg = f"JSON-RPC Error: {error.get('message', get_error_message(code))} (code: {code})"
+    try:
+        st = ast.parse((src / "protocol/messages/send_message.py").read_text())
+        pr = _find_func(st, "_process_response")
+        text_expr = None
+        for n in ast.walk(pr):
+            if isinstance(n, ast.Assign) and len(n.targets) == 1 and isinstance(n.targets[0], ast.Name) \
+                    and n.targets[0].id == "msg" and isinstance(n.value, ast.JoinedStr):
+                text_expr = n.value
+        if text_expr is None:
+            raise Untranslatable("no `msg = f\"...\"` in _process_response")
+        err_text = _str_expr(text_expr, {"__ints__": {"code": "code"}, "__optstr__": {"error": ("message", "msg")},
+                                          "__strfuncs__": {"get_error_message": "getErrorMessage"}})
+    except (Untranslatable, OSError) as ex:
+        aux_bad.append(f"_process_response text: {ex}")
+        err_text = '""'
+    report["aux_untranslatable"] = aux_bad
+    aux_ok = "true" if not aux_bad else "false"
+    table_lean = "[" + ", ".join(f"({k}, {_lean_str(v)})" for k, v in table) + "]"
     ok = "true" if not report["untranslatable"] else "false"
     # stable de-dup preserving order (python sets have no duplicates)
     def dedup(xs):
@@ -287,6 +388,30 @@ def named : List Int := {_int_list(dedup(named))}
 
 /-- body of `is_retryable_error`, translated from its AST -/
 def isRetryableError (code : Int) : Bool := {body}
+
+/-! Auxiliary (supplementary) part: not named by C07's text; own flag. -/
+
+/-- `false` when some auxiliary fragment fell outside the translator's subset -/
+def auxTranslatable : Bool := {aux_ok}
+
+/-- ERROR_MESSAGES -/
+def messages : List (Int × String) := {table_lean}
+
+/-- body of `get_error_message` -/
+def getErrorMessage (code : Int) : String := {gem}
+
+/-- body of `is_server_error` -/
+def isServerError (code : Int) : Bool := {aux["isServerError"]}
+
+/-- body of `is_standard_jsonrpc_error` -/
+def isStandardJsonrpcError (code : Int) : Bool := {aux["isStandardJsonrpcError"]}
+
+/-- body of `is_mcp_specific_error` -/
+def isMcpSpecificError (code : Int) : Bool := {aux["isMcpSpecificError"]}
+
+/-- text of the exception `send_message._process_response` raises for an error object with the
+given optional `message` and (defaulted) `code` -/
+def errText (msg : Option String) (code : Int) : String := {err_text}
 
 end Verif.Gen.Errors
 """
